@@ -46,6 +46,13 @@ fn main() {
         _ => tier,
     };
     let seed: u64 = std::env::var("VERIF_SEED").ok().and_then(|s| s.trim().parse::<i64>().ok()).map(|v| v as u64).unwrap_or(0);
+    // the build configuration must be the one the caller says it is
+    let bytes_as_text = serde_json::to_string(&passkey_types::Bytes::from(vec![1u8])).map(|s| s.starts_with('"')).unwrap_or(false);
+    let want_text = pkverif::core::variant().as_deref() == Some("b64");
+    if bytes_as_text != want_text || (pkverif::core::variant().is_some() && !want_text) {
+        eprintln!("harness built {} the library's serialize_bytes_as_base64_string feature but VERIF_VARIANT={:?}", if bytes_as_text { "with" } else { "without" }, pkverif::core::variant());
+        std::process::exit(2);
+    }
     let mut ctx = Ctx::new(id, tier, seed);
 
     if let Some(pos) = args.iter().position(|a| a == "--replay") {
@@ -134,6 +141,10 @@ fn main() {
             let Ok(v) = serde_json::from_str::<serde_json::Value>(&text) else { continue };
             let stage = v.get("stage").and_then(|s| s.as_str()).unwrap_or("").to_string();
             let case = v.get("case").cloned().unwrap_or(serde_json::Value::Null);
+            // a replay recorded under another build configuration belongs to that configuration's run
+            if v.get("variant").and_then(|s| s.as_str()).map(|s| s.to_string()) != core::variant() {
+                continue;
+            }
             n += 1;
             if let Err(e) = props::replay(&mut ctx, &stage, &case) {
                 if e.starts_with("NOT-APPLICABLE:") {
